@@ -202,8 +202,7 @@ U('compressed_search', fam_compressed, 'Compressed_search', ['C08', 'C16', 'C17'
   cases=[('PGMV_CASE', '0'), ('PGMV_CASE', '1'), ('PGMV_CASE', '2')], timeout=1500, partition=16, mem_gb=10, thorough_only_props=['C16', 'C17'],
   assumptions=[ACC_NOTE, 'WF_compressed per level (keys strictly increasing, first key = first_key, sentinel last, responsible segment exists) through lemma contracts [B: established by the constructor, bounded link]',
                'ACC of the root line is an assumed lemma on the computed value (the floating-point evaluation itself is only checked for undefined conversions)',
-               'at most 8 levels below the root, each with its own fresh key array (enumerated in the precondition: a bound on the height of the index, not on n, the level sizes or the epsilons)',
-               'the responsible segment of the current level is re-derived by lemma + assume at the head of the level loop body (loop invariants cannot call lemma functions)'])
+               'at most 8 levels below the root, each with its own fresh key array (enumerated in the precondition: a bound on the height of the index, not on n, the level sizes or the epsilons)'])
 
 # ---------------------------------------------------------------------------------------------------
 # OptimalPiecewiseLinearModel: control part + guards
